@@ -244,6 +244,9 @@ pub enum Stmt {
     ExitProc,
     /// Verbatim statement text (used for built-in subs and fault injection); no semantics in refsem.
     Raw(String),
+    /// A built-in statement without visible effect on output or variables (file set-up, GET / PUT of a record ...).
+    /// `text` may mention `{v}`: the spelling of `var`. It fails with run-time error `code` when `var` holds one of `bad`.
+    Opaque { text: String, var: Option<LValue>, bad: Vec<i64>, code: u16 },
 }
 
 #[derive(Clone, Debug, PartialEq)]
